@@ -266,20 +266,23 @@ class BaseTemplate:
         # before the first of them is installed, so that a call that is
         # cut short (an asynchronous exception) leaves nothing behind
         # that the next one does not know of.
-        previous = self.__dict__.get('_v_entry_points', ())
-        self._v_entry_points = tuple(set(previous).union(functions))
+        # (one installation at a time: two that overlap would each go by
+        # a record that the other one is changing)
+        with _reload_lock(self):
+            previous = self.__dict__.get('_v_entry_points', ())
+            self._v_entry_points = tuple(set(previous).union(functions))
 
-        for name, function in functions.items():
-            setattr(self, "_" + name, function)
+            for name, function in functions.items():
+                setattr(self, "_" + name, function)
 
-        for name in previous:
-            if name not in functions:
-                # (another thread cooking the same body may have removed
-                # it already)
-                self.__dict__.pop("_" + name, None)
-        self._v_entry_points = tuple(functions)
+            for name in previous:
+                if name not in functions:
+                    # (another thread cooking the same body may have removed
+                    # it already)
+                    self.__dict__.pop("_" + name, None)
+            self._v_entry_points = tuple(functions)
 
-        self._cooked = True
+            self._cooked = True
 
         if self.keep_body:
             self.body = body
